@@ -129,6 +129,12 @@ def _client_view(w: World, scn: Dict[str, Any], obs: CS.Obs) -> Dict[str, Any]:
 def fam_client(w: World) -> None:
     scn = CS.draw_scenario(w.ch, cancel=False, max_tracers=2)
     c09.normalise_script(scn)
+    if w.ch.flag(1, 8, 'blank_reply'):
+        # the transport hands back a reply that is white space only (some HTTP stacks do for 204-like answers): what
+        # the clients make of it is not fixed by any statement, but both must make the same of it
+        step = scn['script'][w.ch.draw(len(scn['script']), 'blank_reply.step')]
+        step['outcome'] = 'blank'
+        step['blank'] = w.ch.choice(['\n', ' ', ' \r\n\t ', '\n\n'], 'blank_reply.text')
     if scn['tracers'] and w.ch.flag(1, 6, 'tracer.raises_on_end'):
         # a tracer that fails in on_request_end: whatever the clients do with it, they must do the same
         scn['tracer_raises_on_end'] = w.ch.draw(scn['tracers'], 'tracer.which')
@@ -239,10 +245,57 @@ def fam_client_history(w: World) -> None:
                 return
 
 
-FAMILIES = {'twin.server': fam_server, 'twin.client': fam_client, 'twin.client.history': fam_client_history,
+def fam_server_big(w: World) -> None:
+    """Large batches (around 100 and a few hundred elements): the three dispatchers must agree element for element."""
+    ch = w.ch
+    n = ch.choice([99, 100, 101, 128, 129, 257, 300], 'big.n')
+    els = []
+    for k in range(n):
+        kind = ch.weighted([6, 1, 1, 1], 'big.kind')
+        tok = f't{k}'
+        if kind == 0:
+            el = {'jsonrpc': '2.0', 'method': 'echo', 'params': [tok, k], 'id': k}
+        elif kind == 1:
+            el = {'jsonrpc': '2.0', 'method': 'none', 'params': [tok]}           # a notification
+        elif kind == 2:
+            el = {'jsonrpc': '2.0', 'method': 'nosuch', 'params': [tok], 'id': f's{k}'}
+        else:
+            el = {'jsonrpc': '2.0', 'method': 'fail_exc', 'params': [tok, 'value'], 'id': k}
+        els.append(el)
+    text = json.dumps(els)
+    cfg = S.draw_config(ch, n)
+    if cfg['max_batch_size'] is not None and 0 < cfg['max_batch_size'] < n:
+        cfg['max_batch_size'] = ch.choice([None, n, n - 1], 'big.max_batch')
+    w.scenario = {'cfg': cfg, 'n': n}
+    w.nontrivial = True
+    views = {}
+    views['sync'] = _server_view(w, S.ServerUnderTest(w, dict(cfg, **{'async': False, 'flavour': 'sync'}), node='srv_sync'),
+                                 text, 0)
+    for flavour in ('async', 'sync'):
+        acfg = dict(cfg, **{'async': True, 'flavour': flavour})
+        if flavour == 'async':
+            for k in range(0, n, 7):
+                w.plan[('method', f't{k}')] = [ch.choice([0.0, 0.125, 1.0], 'big.pause')]
+        views['async.' + flavour] = _server_view(w, S.ServerUnderTest(w, acfg, node='srv_async_' + flavour), text, 0)
+    base = views['sync']
+    for name, view in views.items():
+        for key in ('outcome', 'executions'):
+            if view[key] != base[key]:
+                got, want = view[key], base[key]
+                detail = ''
+                if key == 'outcome' and got[0] == want[0] == 'reply' and isinstance(got[1], list) and isinstance(want[1], list):
+                    detail = f' ({len(got[1])} entries against {len(want[1])})'
+                w.violate('C11.server.' + key, f'{name} and the synchronous dispatcher disagree on a batch of {n} '
+                          f'elements{detail}', view=name, key=key, n=n)
+                return
+
+
+FAMILIES = {'twin.server.big': fam_server_big, 'twin.server': fam_server, 'twin.client': fam_client, 'twin.client.history': fam_client_history,
             'twin.server.history': fam_server_history}
 PLAN = {
-    'quick': {'twin.server': 40000, 'twin.client': 40000, 'twin.client.history': 12000, 'twin.server.history': 12000},
-    'thorough': {'twin.server': 60000, 'twin.client': 60000, 'twin.client.history': 36000, 'twin.server.history': 36000},
+    'quick': {'twin.server': 40000, 'twin.client': 40000, 'twin.client.history': 12000, 'twin.server.history': 12000,
+              'twin.server.big': 600},
+    'thorough': {'twin.server': 60000, 'twin.client': 60000, 'twin.client.history': 36000, 'twin.server.history': 36000,
+                 'twin.server.big': 1200},
 }
 THOROUGH_BUDGET_S = 600
